@@ -82,4 +82,13 @@ def main(argv=None):
 
 
 if __name__ == '__main__':
-    sys.exit(main())
+    try:
+        rc = main()
+    except SystemExit:
+        raise
+    except BaseException:
+        import traceback
+        traceback.print_exc()
+        print('HARNESS-ERROR uncaught exception in the harness (see traceback on stderr)')
+        rc = 2
+    sys.exit(rc)
